@@ -2435,6 +2435,13 @@ impl InferContext {
                     .collect::<Vec<_>>();
                 rtype.iter().copied().for_each(|ty| scoped_types.push(ty));
                 self.with_explicit_type_param_scope_from_types(&scoped_types, |this| {
+                    // Default values are ordinary expressions, evaluated on behalf of the caller
+                    // when the argument is omitted: check them in the enclosing scope, where the
+                    // parameters are not visible.
+                    let default_tys = p
+                        .iter()
+                        .map(|id| id.default_value.map(|d| this.infer_type_unwrapping(d)))
+                        .collect::<Vec<_>>();
                     this.env.extend();
                     let lambda_res = (|| -> Result<TypeNodeId, Vec<Error>> {
                         this.instantiated_map.clear();
@@ -2460,6 +2467,12 @@ impl InferContext {
                                 }
                             })
                             .collect::<Vec<_>>();
+                        // a default value has to fit its parameter
+                        for (param, default_ty) in pvec.iter().zip(default_tys.iter()) {
+                            if let Some(default_ty) = default_ty {
+                                let _rel = this.unify_types(param.ty, *default_ty)?;
+                            }
+                        }
                         let ptype = if pvec.is_empty() {
                             Type::Primitive(PType::Unit).into_id_with_location(loc.clone())
                         } else if pvec.len() == 1 {
